@@ -7,15 +7,16 @@ Model: `Forkable.processBlock` (`Model/Forkable.lean`, `Model/ForkDB.lean`), tie
 tip, or the LIB when nothing is pending, as its parent), pops on Undo (the block must be the current tip) and drops
 its oldest pending block on Irreversible.
 
-Scope of the unbounded theorems: a forkable that knows its LIB and does not wait for an inclusive starting block
-(`Inv`), a handler that sees New, Undo and Irreversible steps, incoming blocks with non-empty ids (`WFin`), heights
-that grow along parent links (`HB`) and LIB declarations that name the height of an ancestor (`LibDeclOK`).
-`SentClosed` ("a delivered block was delivered together with its ancestors above the LIB") is carried as a
-hypothesis on each state of the history: its preservation is not proved here (it needs "a purged block never
-comes back", i.e. global consistency of ids and heights of the history); the driver evaluates a sound Boolean
-check of every hypothesis on every model state of every run and reports how many steps were inside the theorem's
-hypotheses. LIB discovery and the inclusive starting block are covered by the correspondence and the trace
-monitors only (`step_discipline_partial` in the sense of DESIGN §6).
+Main theorem: `history_discipline_consistent` — hypotheses on the *input* only: the blocks of the history come from
+one consistent block tree (`UOK`: ids identify blocks, non-empty ids, heights grow along parent links) and LIB
+declarations name the height of a stored ancestor (`LibHistOK`); the forkable knows its LIB and does not wait for an
+inclusive starting block (`Inv`, established by `init_inv`/`init_inv2` for an exclusive starting LIB); the handler
+sees New, Undo and Irreversible. `step_discipline`/`history_discipline` are the same statements with the state-side
+hypothesis `SentClosed` ("a delivered block was delivered together with its ancestors above the LIB") in place of the
+universe; `Lemmas/SentInv` proves `SentClosed` from the universe (a purged block can only come back below the LIB,
+where it is dropped). Every hypothesis has a Boolean check with a soundness theorem (`Lemmas/StepCheckSound`), used
+for the non-vacuity example and by the driver's coverage counters. LIB discovery and the inclusive starting block
+are covered by the correspondence and the trace monitors only.
 -/
 namespace BstreamVerif.Props.C01
 open BstreamVerif BstreamVerif.Forkable BstreamVerif.ForkDB
@@ -39,7 +40,7 @@ theorem step_discipline (cfg : Config) (hnew : cfg.matches .new = true) (hundo :
     ∃ P', (⟨s.db.libRef.id, P⟩ : CS).run (processBlock cfg s b none).2.1 =
         some ⟨(processBlock cfg s b none).1.db.libRef.id, P'⟩ ∧
       Inv (processBlock cfg s b none).1 P' :=
-  let ⟨P', h1, h2, _⟩ := processBlock_step cfg hnew hundo hirr s P b hI hok.1 hok.2.1 hok.2.2.1 hok.2.2.2
+  let ⟨P', h1, h2, _, _⟩ := processBlock_step cfg hnew hundo hirr s P b hI hok.1 hok.2.1 hok.2.2.1 hok.2.2.2
   ⟨P', h1, h2⟩
 
 theorem runHistory_cons (cfg : Config) (s : FState) (b : Blk) (r : List Blk) :
@@ -83,6 +84,63 @@ theorem history_discipline (cfg : Config) (hnew : cfg.matches .new = true) (hund
     simp only
     rw [run_append, hrun1]
     exact hrun2
+
+/-! ### the same for every history drawn from a consistent set of blocks: no hypothesis on the states any more -/
+
+/-- LIB declarations along a history resolve to stored ancestors carrying their real number -/
+def LibHistOK (cfg : Config) : FState → List Blk → Prop
+  | _, [] => True
+  | s, b :: r => LibDeclOK s.db b ∧ LibHistOK cfg (processBlock cfg s b none).1 r
+
+/-- **one incoming block drawn from a consistent universe** -/
+theorem step_discipline_consistent (cfg : Config) (hnew : cfg.matches .new = true) (hundo : cfg.matches .undo = true)
+    (hirr : cfg.matches .irreversible = true) (U : Id → Option Blk) (hU : UOK U) (F : List Id)
+    (s : FState) (P : List Id) (b : Blk) (hI : Inv s P) (hJ : Inv2 U F s.db) (hbU : U b.id = some b)
+    (hL : LibDeclOK s.db b) :
+    ∃ P' F', (⟨s.db.libRef.id, P⟩ : CS).run (processBlock cfg s b none).2.1 =
+        some ⟨(processBlock cfg s b none).1.db.libRef.id, P'⟩ ∧
+      Inv (processBlock cfg s b none).1 P' ∧ Inv2 U F' (processBlock cfg s b none).1.db := by
+  obtain ⟨P', h1, h2, _, h4⟩ := processBlock_step cfg hnew hundo hirr s P b hI
+    (sentClosed_of_inv2 U F s.db hI.wf hI.heights hJ) (hU.wf b.id b hbU) (hb_of_inv2 U hU F s.db hJ b hbU) hL
+  obtain ⟨F', hJ'⟩ := h4 U F hU hJ hbU
+  exact ⟨P', F', h1, h2, hJ'⟩
+
+/-- **every history of blocks of one consistent block tree** — any order, duplicates, gaps, forks, orphans, blocks
+    below the LIB, blocks arriving before their parents: the whole event stream keeps the push/pop consumer on one
+    parent-linked chain resting on the LIB. The only hypotheses are about the *input*: the blocks come from a set in
+    which ids identify blocks and heights grow along parent links (`UOK`), and LIB declarations name the height of an
+    ancestor (`LibHistOK`). -/
+theorem history_discipline_consistent (cfg : Config) (hnew : cfg.matches .new = true) (hundo : cfg.matches .undo = true)
+    (hirr : cfg.matches .irreversible = true) (U : Id → Option Blk) (hU : UOK U) (h : List Blk) (F : List Id)
+    (s : FState) (P : List Id) (hI : Inv s P) (hJ : Inv2 U F s.db) (hin : ∀ b ∈ h, U b.id = some b)
+    (hL : LibHistOK cfg s h) :
+    ∃ P', (⟨s.db.libRef.id, P⟩ : CS).run (runHistory cfg s h).2 =
+        some ⟨(runHistory cfg s h).1.db.libRef.id, P'⟩ ∧ Inv (runHistory cfg s h).1 P' := by
+  induction h generalizing s P F with
+  | nil => exact ⟨P, rfl, hI⟩
+  | cons b r ih =>
+    obtain ⟨P1, F1, hrun1, hI1, hJ1⟩ :=
+      step_discipline_consistent cfg hnew hundo hirr U hU F s P b hI hJ (hin b (by simp)) hL.1
+    obtain ⟨P2, hrun2, hI2⟩ := ih F1 _ P1 hI1 hJ1 (fun x hx => hin x (by simp [hx])) hL.2
+    rw [runHistory_cons]
+    refine ⟨P2, ?_, hI2⟩
+    simp only
+    rw [run_append, hrun1]
+    exact hrun2
+
+/-- the universe-side invariant holds initially for a forkable started on an exclusive LIB `r` that is consistent
+    with the universe (blocks naming `r` as parent are higher; the block `r` itself, if it exists, has `r`'s number) -/
+theorem init_inv2 (cfg : Config) (r : Ref) (hroot : cfg.root = some (.exclusive r)) (U : Id → Option Blk)
+    (h1 : ∀ b, U b.id = some b → b.parent = r.id → r.num < b.num)
+    (h2 : ∀ b, U b.id = some b → b.id = r.id → b.num = r.num) :
+    Inv2 U [r.id] (init cfg).db := by
+  unfold init
+  rw [hroot]
+  refine ⟨?_, by simp [DB.initLIB, DB.empty], ?_, by simp [DB.initLIB, DB.empty], h1, h2⟩
+  · intro e he; simp [DB.initLIB, DB.empty] at he
+  · intro f hf hne
+    simp only [List.mem_singleton] at hf
+    exact absurd hf hne
 
 /-- the invariant holds initially for a forkable started on a known (exclusive) LIB -/
 theorem init_inv (cfg : Config) (r : Ref) (hr : r.id ≠ "") (hroot : cfg.root = some (.exclusive r)) :
